@@ -31,6 +31,9 @@ FIXED = [
     fx([{"sender": "s@rem.example", "rcpts": ["joe@loc.example", "ann@loc.example"], "body": "x\n"}], {"0:0": "ZZZ", "0:1": "ZZZZ"},
        [], ["answer", "inject", "advance"], {"queuelifetime": "60\n"}),
     fx([{"sender": "s@rem.example", "rcpts": ["r@rem.example"], "body": "x\n"}], {"0:0": "ZZ"}, [], ["answer", "inject", "advance"], {"queuelifetime": "0\n"}),
+    # an old message dies in a job slot, then a YOUNG message is served from the same slot and gets a temporary failure: it must be deferred
+    fx([{"sender": "s@rem.example", "rcpts": ["joe@loc.example"], "body": "x\n"}, {"sender": "t@rem.example", "rcpts": ["ann@loc.example"], "body": "y\n"}],
+       {"0:0": "ZZ", "1:0": "ZK"}, [0, 0, 0, 0, 1, 0, 0, 0, 0, 0, 0, 0, 0, 0], ["answer", "inject", "advance"], {"queuelifetime": "60\n"}),
 ]
 
 
